@@ -5,12 +5,14 @@ import PdfModel.Model.Concurrent
 
   c13.replay <guard> <cfg> <tol> <size> <root> <objs> <threads> <schedule>
      guard     `0` one guard stack per thread (the code under test) | `1` one stack shared by all threads (before D29)
+               | `2` as `0`, and the callbacks into the user's `Log` are steps of their own (`Cfg.cb`)
      cfg tol size root objs   as in `c12.run`; the file is opened sequentially (catalog loaded) before the threads start
      threads   `/`-separated, per thread the `;`-separated calls of `c12.run` (`-` = none)
      schedule  `.`-separated thread numbers (`-` = empty)
   → `<trace>|<results>|<final>|<enabled>`
      trace     `.`-separated, per scheduled step where the thread stands afterwards:
-               `t` between calls | `e<r>` entry of get | `p<r>` guard pushed | `w<r>` waiting for the slot
+               `t` between calls | `lg<r>` inside `Log::log_get(r)` | `lo<r>` inside the first `Log::load_object(r)` of a
+               compute / reload run | `e<r>` entry of get | `p<r>` guard pushed | `w<r>` waiting for the slot
                | `s<r>` before the store | `o<r>` before the pop | `d` finished | `x` panicked
                | `!` the step was not enabled (replay stops)
      results   `/`-separated per thread, the `;`-separated answers of its completed calls
@@ -29,6 +31,8 @@ def status (t : Thread Val String) : String :=
   | .enter _ r _, _ => s!"e{r}"
   | .pushed _ r _, _ => s!"p{r}"
   | .waiting _ r _, _ => s!"w{r}"
+  | .logging _ r _, _ => s!"lg{r}"
+  | .loading r _, _ => s!"lo{r}"
   | .storing _, f :: _ => s!"s{f.r}"
   | .storing _, [] => "s?"
   | .popping _ r _ _, _ => s!"o{r}"
@@ -67,12 +71,12 @@ def finalOf (doc : Doc Val String) (cfg : Conc.Cfg) (s : State Val String) : Str
   else if s.deadlocked doc cfg then "deadlock"
   else "running"
 
-def runAll (d : Desc) (guard : Bool) (ccfg : Cache.Cfg) (rootId : Nat) (threads : List (List CallK)) (sched : List Nat) : String :=
+def runAll (d : Desc) (guard : Bool) (cb : Bool) (ccfg : Cache.Cfg) (rootId : Nat) (threads : List (List CallK)) (sched : List Nat) : String :=
   let doc := toDoc d
   let o := call doc ccfg (d.size + d.objs.length + 4) St.empty (getP tC rootId)
   match o.1 with
   | .ok _ =>
-    let cfg : Conc.Cfg := ⟨ccfg.objCache, ccfg.stmCache, guard⟩
+    let cfg : Conc.Cfg := ⟨ccfg.objCache, ccfg.stmCache, guard, cb⟩
     let slots := o.2.obj.map fun p => (p.1, slotOf p.2)
     let s0 : State Val String := State.init slots o.2.stm (threads.map fun cs => cs.map fun c => c.prog d o.1)
     let r := replay doc cfg s0 sched [] []
@@ -83,9 +87,9 @@ def runAll (d : Desc) (guard : Bool) (ccfg : Cache.Cfg) (rootId : Nat) (threads 
 def handleSched (args : List String) : String :=
   match args with
   | ["c13.replay", guard, cfg, tol, size, root, objs, threads, sched] =>
-    match boolOf guard, parseCfg cfg, boolOf tol, natOf size, natOf root, parseObjs objs, parseThreads threads, parseSched sched with
+    match natOf guard, parseCfg cfg, boolOf tol, natOf size, natOf root, parseObjs objs, parseThreads threads, parseSched sched with
     | some guard, some cfg, some tol, some size, some root, some objs, some threads, some sched =>
-      runAll ⟨size, tol, objs⟩ guard cfg root threads sched
+      runAll ⟨size, tol, objs⟩ (guard == 1) (guard == 2) cfg root threads sched
     | _, _, _, _, _, _, _, _ => "bad-request"
   | _ => "bad-request"
 
